@@ -9,6 +9,26 @@ variable {α : Type}
 @[simp] theorem enter_map (r : Recorder α) (s : Seg) (loc : α) :
     (r.enter s loc).map = insert r.map (r.current ++ [s]) loc := rfl
 
+/-! ### `remove` -/
+
+theorem mem_remove {m : Map α} {p : Path} {e : Path × α} : e ∈ remove m p ↔ e ∈ m ∧ e.1 ≠ p := by
+  unfold remove
+  simp [List.mem_filter]
+
+theorem mem_keys_remove {m : Map α} {p q : Path} :
+    q ∈ (remove m p).map (·.1) ↔ q ∈ m.map (·.1) ∧ q ≠ p := by
+  simp only [List.mem_map]
+  constructor
+  · rintro ⟨e, he, rfl⟩
+    obtain ⟨h1, h2⟩ := mem_remove.mp he
+    exact ⟨⟨e, h1, rfl⟩, h2⟩
+  · rintro ⟨⟨e, he, rfl⟩, h2⟩
+    exact ⟨e, mem_remove.mpr ⟨he, h2⟩, rfl⟩
+
+theorem remove_keysNodup {m : Map α} (hm : KeysNodup m) (p : Path) : KeysNodup (remove m p) := by
+  unfold KeysNodup remove at *
+  exact List.Nodup.sublist (List.Sublist.map _ List.filter_sublist) hm
+
 /-! ### the current path is restored -/
 
 theorem recordItems_current :
@@ -40,6 +60,7 @@ theorem record_current : ∀ (v : Visit α) (r : Recorder α), (record v r).2.cu
   | .leaf ok, r => by simp [record]
   | .seq items, r => by rw [record]; exact recordItems_current items 0 r
   | .map c es, r => by rw [record]; exact recordEntries_current es _
+  | .ignored w, r => by simp [record]
 
 /-! ### the success flag does not depend on the recorder -/
 
@@ -48,6 +69,7 @@ theorem record_fst : ∀ (v : Visit α) (r : Recorder α), (record v r).1 = v.su
   | .leaf ok, r => by simp [record, Visit.succeeds]
   | .seq items, r => by rw [record, Visit.succeeds]; exact recordItems_fst items 0 r
   | .map c es, r => by rw [record, Visit.succeeds]; exact recordEntries_fst es _
+  | .ignored w, r => by simp [record, Visit.succeeds]
 theorem recordItems_fst :
     ∀ (items : List (α × Visit α)) (idx : Nat) (r : Recorder α),
       (recordItems items idx r).1 = Visit.succeeds.succeedsItems items
@@ -75,11 +97,74 @@ theorem recordEntries_fst :
     · rename_i h; simp [h]
 end
 
-/-! ### every recorded key is the tree path of the position being deserialized -/
+/-! ### ignored values -/
+
+theorem positions_of_ignored {v : Visit α} (h : v.isIgnored = true) : positions v = [] := by
+  cases v <;> simp [Visit.isIgnored] at h
+  simp [positions]
+
+/-- an ignored value leaves no entry under its own path -/
+theorem ignored_removes {v : Visit α} (h : v.isIgnored = true) (r : Recorder α) :
+    ∀ e ∈ (record v r).2.map, e.1 ≠ r.current := by
+  cases v <;> simp [Visit.isIgnored] at h
+  intro e he
+  simp only [record] at he
+  exact (mem_remove.mp he).2
+
+theorem nil_not_mem_ignoredItems : ∀ (items : List (α × Visit α)) (i : Nat), [] ∉ ignoredItems items i
+  | [], _ => by simp [ignoredItems]
+  | (_, v) :: rest, i => by
+    rw [ignoredItems]
+    simp only [List.mem_append, List.mem_map, not_or, not_exists, not_and]
+    exact ⟨fun q _ h => by simp at h, nil_not_mem_ignoredItems rest (i + 1)⟩
+
+theorem nil_not_mem_ignoredEntries : ∀ (es : List (Option (List Char) × α × Visit α)), [] ∉ ignoredEntries es
+  | [] => by simp [ignoredEntries]
+  | (none, _, _) :: rest => by rw [ignoredEntries]; exact nil_not_mem_ignoredEntries rest
+  | (some k, _, v) :: rest => by
+    rw [ignoredEntries]
+    simp only [List.mem_append, List.mem_map, not_or, not_exists, not_and]
+    exact ⟨fun q _ h => by simp at h, nil_not_mem_ignoredEntries rest⟩
+
+theorem nil_not_mem_ignoredAt {v : Visit α} (h : v.isIgnored = false) : [] ∉ ignoredAt v := by
+  cases v with
+  | leaf ok => simp [ignoredAt]
+  | seq items => rw [ignoredAt]; exact nil_not_mem_ignoredItems items 0
+  | map c es => rw [ignoredAt]; exact nil_not_mem_ignoredEntries es
+  | ignored w => simp [Visit.isIgnored] at h
+
+/-! ### every recorded key is the tree path of a consumed position -/
 
 /-- what the recorder added: an entry is old, or sits at `current ++ q` for a position `q` of `ps` -/
 def AddedFrom (ps : List (Path × α)) (r : Recorder α) (m : Map α) : Prop :=
   ∀ e ∈ m, e ∈ r.map ∨ ∃ q, e.1 = r.current ++ q ∧ (q, e.2) ∈ ps
+
+/-- one element / one mapping value: entries present after the value itself was deserialized -/
+theorem step_added (v : Visit α) (r : Recorder α) (s : Seg) (loc : α) (tail : List (Path × α))
+    (hrec : AddedFrom (positions v) (r.enter s loc) (record v (r.enter s loc)).2.map) :
+    ∀ e', e' ∈ (record v (r.enter s loc)).2.map →
+      e' ∈ r.map ∨ ∃ q, e'.1 = r.current ++ q ∧
+        (q, e'.2) ∈ (if v.isIgnored then [] else
+          ([s], loc) :: (positions v).map (fun e => (s :: e.1, e.2))) ++ tail := by
+  intro e' he'
+  by_cases hv : v.isIgnored = true
+  · have hne := ignored_removes hv (r.enter s loc) e' he'
+    rcases hrec e' he' with h | ⟨q, _, h2⟩
+    · rcases mem_insert h with h | h
+      · exact Or.inl h
+      · exact absurd (by simp [h]) hne
+    · rw [positions_of_ignored hv] at h2
+      simp at h2
+  · have hv' : v.isIgnored = false := by simpa using hv
+    simp only [hv', Bool.false_eq_true, if_false]
+    rcases hrec e' he' with h | ⟨q, h1, h2⟩
+    · rcases mem_insert h with h | h
+      · exact Or.inl h
+      · exact Or.inr ⟨[s], by simp [h], by simp [h]⟩
+    · refine Or.inr ⟨s :: q, by simp [h1], ?_⟩
+      apply List.mem_append_left
+      apply List.mem_cons_of_mem
+      exact List.mem_map.mpr ⟨(q, e'.2), h2, rfl⟩
 
 mutual
 theorem record_added : ∀ (v : Visit α) (r : Recorder α), AddedFrom (positions v) r (record v r).2.map
@@ -98,6 +183,10 @@ theorem record_added : ∀ (v : Visit α) (r : Recorder α), AddedFrom (position
       · exact Or.inl h
       · exact Or.inr ⟨[], by simp [h], by simp [h]⟩
     · exact Or.inr ⟨q, h1, List.mem_cons_of_mem _ h2⟩
+  | .ignored w, r => by
+    intro e he
+    simp only [record] at he
+    exact Or.inl (mem_remove.mp he).1
 theorem recordItems_added :
     ∀ (items : List (α × Visit α)) (idx : Nat) (r : Recorder α),
       AddedFrom (positionsItems items idx) r (recordItems items idx r).2.map
@@ -110,24 +199,11 @@ theorem recordItems_added :
     rw [recordItems] at he
     simp only at he
     rw [positionsItems]
-    -- entries present after the element itself was deserialized
-    have step : ∀ e', e' ∈ (record v (r.enter (idxSeg idx) loc)).2.map →
-        e' ∈ r.map ∨ ∃ q, e'.1 = r.current ++ q ∧
-          (q, e'.2) ∈ ([idxSeg idx], loc) :: ((positions v).map (fun e => (idxSeg idx :: e.1, e.2)) ++
-            positionsItems rest (idx + 1)) := by
-      intro e' he'
-      rcases record_added v _ e' he' with h | ⟨q, h1, h2⟩
-      · rcases mem_insert h with h | h
-        · exact Or.inl h
-        · exact Or.inr ⟨[idxSeg idx], by simp [h], by simp [h]⟩
-      · refine Or.inr ⟨idxSeg idx :: q, by simp [h1], ?_⟩
-        apply List.mem_cons_of_mem
-        apply List.mem_append_left
-        exact List.mem_map.mpr ⟨(q, e'.2), h2, rfl⟩
+    have step := step_added v r (idxSeg idx) loc (positionsItems rest (idx + 1)) (record_added v _)
     split at he
     · rcases recordItems_added rest (idx + 1) _ e he with h | ⟨q, h1, h2⟩
       · exact step e h
-      · exact Or.inr ⟨q, h1, List.mem_cons_of_mem _ (List.mem_append_right _ h2)⟩
+      · exact Or.inr ⟨q, h1, List.mem_append_right _ h2⟩
     · exact step e he
 theorem recordEntries_added :
     ∀ (es : List (Option (List Char) × α × Visit α)) (r : Recorder α),
@@ -148,66 +224,15 @@ theorem recordEntries_added :
     rw [recordEntries] at he
     simp only at he
     rw [positionsEntries]
-    have step : ∀ e', e' ∈ (record v (r.enter (keySeg seg) loc)).2.map →
-        e' ∈ r.map ∨ ∃ q, e'.1 = r.current ++ q ∧
-          (q, e'.2) ∈ ([keySeg seg], loc) :: ((positions v).map (fun e => (keySeg seg :: e.1, e.2)) ++
-            positionsEntries rest) := by
-      intro e' he'
-      rcases record_added v _ e' he' with h | ⟨q, h1, h2⟩
-      · rcases mem_insert h with h | h
-        · exact Or.inl h
-        · exact Or.inr ⟨[keySeg seg], by simp [h], by simp [h]⟩
-      · refine Or.inr ⟨keySeg seg :: q, by simp [h1], ?_⟩
-        apply List.mem_cons_of_mem
-        apply List.mem_append_left
-        exact List.mem_map.mpr ⟨(q, e'.2), h2, rfl⟩
+    have step := step_added v r (keySeg seg) loc (positionsEntries rest) (record_added v _)
     split at he
     · rcases recordEntries_added rest _ e he with h | ⟨q, h1, h2⟩
       · exact step e h
-      · exact Or.inr ⟨q, h1, List.mem_cons_of_mem _ (List.mem_append_right _ h2)⟩
+      · exact Or.inr ⟨q, h1, List.mem_append_right _ h2⟩
     · exact step e he
 end
 
-/-! ### the recorder never forgets a key, and keeps the `HashMap` invariant -/
-
-mutual
-theorem record_keys_mono : ∀ (v : Visit α) (r : Recorder α) (p : Path),
-    p ∈ r.map.map (·.1) → p ∈ (record v r).2.map.map (·.1)
-  | .leaf ok, r, p => by intro h; simpa [record] using h
-  | .seq items, r, p => by rw [record]; exact recordItems_keys_mono items 0 r p
-  | .map c es, r, p => by
-    rw [record]
-    intro h
-    exact recordEntries_keys_mono es _ p (mem_keys_insert h)
-theorem recordItems_keys_mono : ∀ (items : List (α × Visit α)) (idx : Nat) (r : Recorder α) (p : Path),
-    p ∈ r.map.map (·.1) → p ∈ (recordItems items idx r).2.map.map (·.1)
-  | [], _, r, p => by intro h; simpa [recordItems] using h
-  | (loc, v) :: rest, idx, r, p => by
-    intro h
-    rw [recordItems]
-    simp only
-    have h1 := record_keys_mono v (r.enter (idxSeg idx) loc) p (mem_keys_insert h)
-    split
-    · exact recordItems_keys_mono rest (idx + 1) _ p h1
-    · exact h1
-theorem recordEntries_keys_mono : ∀ (es : List (Option (List Char) × α × Visit α)) (r : Recorder α) (p : Path),
-    p ∈ r.map.map (·.1) → p ∈ (recordEntries es r).2.map.map (·.1)
-  | [], r, p => by intro h; simpa [recordEntries] using h
-  | (none, _, v) :: rest, r, p => by
-    intro h
-    rw [recordEntries]
-    split
-    · exact recordEntries_keys_mono rest r p h
-    · exact h
-  | (some seg, loc, v) :: rest, r, p => by
-    intro h
-    rw [recordEntries]
-    simp only
-    have h1 := record_keys_mono v (r.enter (keySeg seg) loc) p (mem_keys_insert h)
-    split
-    · exact recordEntries_keys_mono rest _ p h1
-    · exact h1
-end
+/-! ### the recorder keeps the `HashMap` invariant -/
 
 mutual
 theorem record_keysNodup : ∀ (v : Visit α) (r : Recorder α), KeysNodup r.map → KeysNodup (record v r).2.map
@@ -217,6 +242,10 @@ theorem record_keysNodup : ∀ (v : Visit α) (r : Recorder α), KeysNodup r.map
     rw [record]
     intro h
     exact recordEntries_keysNodup es _ (insert_keysNodup h _ _)
+  | .ignored w, r => by
+    intro h
+    simp only [record]
+    exact remove_keysNodup h _
 theorem recordItems_keysNodup : ∀ (items : List (α × Visit α)) (idx : Nat) (r : Recorder α),
     KeysNodup r.map → KeysNodup (recordItems items idx r).2.map
   | [], _, r => by intro h; simpa [recordItems] using h
@@ -247,76 +276,199 @@ theorem recordEntries_keysNodup : ∀ (es : List (Option (List Char) × α × Vi
     · exact h1
 end
 
-/-! ### on success every visible position has its key in the map -/
+/-! ### a key survives unless it is the path of an ignored value -/
+
+mutual
+theorem record_keeps : ∀ (v : Visit α) (r : Recorder α) (p : Path),
+    p ∈ r.map.map (·.1) → (∀ q ∈ ignoredAt v, p ≠ r.current ++ q) → p ∈ (record v r).2.map.map (·.1)
+  | .leaf ok, r, p => by intro h _; simpa [record] using h
+  | .seq items, r, p => by rw [record, ignoredAt]; exact recordItems_keeps items 0 r p
+  | .map c es, r, p => by
+    rw [record, ignoredAt]
+    intro h hq
+    exact recordEntries_keeps es _ p (mem_keys_insert h) hq
+  | .ignored w, r, p => by
+    intro h hq
+    simp only [record]
+    exact mem_keys_remove.mpr ⟨h, by simpa [ignoredAt] using hq⟩
+theorem recordItems_keeps : ∀ (items : List (α × Visit α)) (idx : Nat) (r : Recorder α) (p : Path),
+    p ∈ r.map.map (·.1) → (∀ q ∈ ignoredItems items idx, p ≠ r.current ++ q) →
+      p ∈ (recordItems items idx r).2.map.map (·.1)
+  | [], _, r, p => by intro h _; simpa [recordItems] using h
+  | (loc, v) :: rest, idx, r, p => by
+    intro h hq
+    rw [ignoredItems] at hq
+    rw [recordItems]
+    simp only
+    have h1 := record_keeps v (r.enter (idxSeg idx) loc) p (mem_keys_insert h) (by
+      intro q hq'
+      have := hq (idxSeg idx :: q) (List.mem_append_left _ (List.mem_map.mpr ⟨q, hq', rfl⟩))
+      simpa using this)
+    split
+    · exact recordItems_keeps rest (idx + 1) _ p h1 (fun q hq' => hq q (List.mem_append_right _ hq'))
+    · exact h1
+theorem recordEntries_keeps : ∀ (es : List (Option (List Char) × α × Visit α)) (r : Recorder α) (p : Path),
+    p ∈ r.map.map (·.1) → (∀ q ∈ ignoredEntries es, p ≠ r.current ++ q) →
+      p ∈ (recordEntries es r).2.map.map (·.1)
+  | [], r, p => by intro h _; simpa [recordEntries] using h
+  | (none, _, v) :: rest, r, p => by
+    intro h hq
+    rw [ignoredEntries] at hq
+    rw [recordEntries]
+    split
+    · exact recordEntries_keeps rest r p h hq
+    · exact h
+  | (some seg, loc, v) :: rest, r, p => by
+    intro h hq
+    rw [ignoredEntries] at hq
+    rw [recordEntries]
+    simp only
+    have h1 := record_keeps v (r.enter (keySeg seg) loc) p (mem_keys_insert h) (by
+      intro q hq'
+      have := hq (keySeg seg :: q) (List.mem_append_left _ (List.mem_map.mpr ⟨q, hq', rfl⟩))
+      simpa using this)
+    split
+    · exact recordEntries_keeps rest _ p h1 (fun q hq' => hq q (List.mem_append_right _ hq'))
+    · exact h1
+end
+
+/-! ### on success every consumed position has its key in the map -/
+
+/-- one element / mapping value: the positions it contributes are present after its deserialization,
+    provided none of them is the path of an ignored value below it -/
+theorem step_complete (v : Visit α) (r : Recorder α) (s : Seg) (loc : α)
+    (hrec : ∀ q ∈ (positions v).map (·.1), (r.enter s loc).current ++ q ∈ (record v (r.enter s loc)).2.map.map (·.1))
+    (hkeep : ∀ p, p ∈ (r.enter s loc).map.map (·.1) → (∀ q ∈ ignoredAt v, p ≠ (r.enter s loc).current ++ q) →
+      p ∈ (record v (r.enter s loc)).2.map.map (·.1))
+    (hv : v.isIgnored = false) :
+    ∀ q ∈ (([s], loc) :: (positions v).map (fun e => (s :: e.1, e.2))).map (·.1),
+      r.current ++ q ∈ (record v (r.enter s loc)).2.map.map (·.1) := by
+  intro q hq
+  simp only [List.map_cons, List.map_map, List.mem_cons, List.mem_map, Function.comp] at hq
+  rcases hq with rfl | ⟨e, he, rfl⟩
+  · apply hkeep
+    · exact self_mem_keys_insert _ _ _
+    · intro q hq heq
+      have : q = [] := by simpa using heq
+      exact nil_not_mem_ignoredAt hv (this ▸ hq)
+  · have := hrec e.1 (List.mem_map.mpr ⟨e, he, rfl⟩)
+    simpa using this
 
 mutual
 theorem record_complete : ∀ (v : Visit α) (r : Recorder α), (record v r).1 = true →
+    (∀ q ∈ (positions v).map (·.1), q ∉ ignoredAt v) →
     ∀ q ∈ (positions v).map (·.1), r.current ++ q ∈ (record v r).2.map.map (·.1)
-  | .leaf ok, r => by intro _ q hq; simp [positions] at hq
-  | .seq items, r => by rw [record, positions]; exact recordItems_complete items 0 r
+  | .leaf ok, r => by intro _ _ q hq; simp [positions] at hq
+  | .seq items, r => by rw [record, positions, ignoredAt]; exact recordItems_complete items 0 r
   | .map c es, r => by
-    rw [record, positions]
-    intro hok q hq
+    rw [record, positions, ignoredAt]
+    intro hok hdis q hq
     simp only [List.map_cons, List.mem_cons] at hq
     rcases hq with rfl | hq
     · simp only [List.append_nil]
-      exact recordEntries_keys_mono es _ _ (self_mem_keys_insert _ _ _)
-    · exact recordEntries_complete es _ hok q hq
+      apply recordEntries_keeps es _ _ (self_mem_keys_insert _ _ _)
+      intro q hq heq
+      have : q = [] := by simpa using heq
+      exact nil_not_mem_ignoredEntries es (this ▸ hq)
+    · exact recordEntries_complete es _ hok (fun q hq => hdis q (by simp [hq])) q hq
+  | .ignored w, r => by intro _ _ q hq; simp [positions] at hq
 theorem recordItems_complete : ∀ (items : List (α × Visit α)) (idx : Nat) (r : Recorder α),
     (recordItems items idx r).1 = true →
+    (∀ q ∈ (positionsItems items idx).map (·.1), q ∉ ignoredItems items idx) →
     ∀ q ∈ (positionsItems items idx).map (·.1), r.current ++ q ∈ (recordItems items idx r).2.map.map (·.1)
-  | [], _, r => by intro _ q hq; simp [positionsItems] at hq
+  | [], _, r => by intro _ _ q hq; simp [positionsItems] at hq
   | (loc, v) :: rest, idx, r => by
-    intro hok q hq
+    intro hok hdis q hq
     rw [recordItems] at hok ⊢
     simp only at hok ⊢
-    rw [positionsItems] at hq
+    rw [positionsItems] at hq hdis
+    rw [ignoredItems] at hdis
     split at hok
-    · rename_i hv
-      rw [if_pos hv]
-      simp only [List.map_cons, List.map_append, List.map_map, List.mem_cons, List.mem_append, List.mem_map,
-        Function.comp] at hq
-      rcases hq with rfl | ⟨e, he, rfl⟩ | hq
-      · apply recordItems_keys_mono
-        apply record_keys_mono
-        exact self_mem_keys_insert _ _ _
-      · apply recordItems_keys_mono
-        have := record_complete v (r.enter (idxSeg idx) loc) hv e.1 (List.mem_map.mpr ⟨e, he, rfl⟩)
-        simpa using this
-      · have := recordItems_complete rest (idx + 1) _ hok q (by simpa using hq)
+    · rename_i hvok
+      rw [if_pos hvok]
+      rw [List.map_append, List.mem_append] at hq
+      -- disjointness for the tail
+      have hdis_rest : ∀ q ∈ (positionsItems rest (idx + 1)).map (·.1), q ∉ ignoredItems rest (idx + 1) :=
+        fun q hq hi => hdis q (by rw [List.map_append]; exact List.mem_append_right _ hq) (List.mem_append_right _ hi)
+      rcases hq with hq | hq
+      · by_cases hv : v.isIgnored = true
+        · simp [hv] at hq
+        · have hv' : v.isIgnored = false := by simpa using hv
+          simp only [hv', Bool.false_eq_true, if_false] at hq hdis
+          have hhead : ∀ q ∈ (([idxSeg idx], loc) :: (positions v).map (fun e => (idxSeg idx :: e.1, e.2))).map (·.1),
+              q ∉ (ignoredAt v).map (fun q => idxSeg idx :: q) ∧ q ∉ ignoredItems rest (idx + 1) := by
+            intro q hq
+            have := hdis q (by rw [List.map_append]; exact List.mem_append_left _ hq)
+            simpa [List.mem_append, not_or] using this
+          have hdis_v : ∀ q ∈ (positions v).map (·.1), q ∉ ignoredAt v := by
+            intro q hq hi
+            obtain ⟨e, he, rfl⟩ := List.mem_map.mp hq
+            have := (hhead (idxSeg idx :: e.1) (by
+              simp only [List.map_cons, List.map_map, List.mem_cons, List.mem_map, Function.comp]
+              exact Or.inr ⟨e, he, rfl⟩)).1
+            exact this (List.mem_map.mpr ⟨e.1, hi, rfl⟩)
+          have hpres := step_complete v r (idxSeg idx) loc
+            (record_complete v (r.enter (idxSeg idx) loc) hvok hdis_v)
+            (fun p hp hq => record_keeps v (r.enter (idxSeg idx) loc) p hp hq) hv' q hq
+          apply recordItems_keeps rest (idx + 1) ⟨r.current, (record v (r.enter (idxSeg idx) loc)).2.map⟩ _ hpres
+          intro q' hq' heq
+          have : q = q' := by simpa using heq
+          exact (hhead q hq).2 (this ▸ hq')
+      · have := recordItems_complete rest (idx + 1) _ hok hdis_rest q hq
         simpa using this
     · simp at hok
 theorem recordEntries_complete : ∀ (es : List (Option (List Char) × α × Visit α)) (r : Recorder α),
     (recordEntries es r).1 = true →
+    (∀ q ∈ (positionsEntries es).map (·.1), q ∉ ignoredEntries es) →
     ∀ q ∈ (positionsEntries es).map (·.1), r.current ++ q ∈ (recordEntries es r).2.map.map (·.1)
-  | [], r => by intro _ q hq; simp [positionsEntries] at hq
+  | [], r => by intro _ _ q hq; simp [positionsEntries] at hq
   | (none, _, v) :: rest, r => by
-    intro hok q hq
+    intro hok hdis q hq
     rw [recordEntries] at hok ⊢
-    rw [positionsEntries] at hq
+    rw [positionsEntries] at hq hdis
+    rw [ignoredEntries] at hdis
     split at hok
     · rename_i hv
       rw [if_pos hv]
-      exact recordEntries_complete rest r hok q hq
+      exact recordEntries_complete rest r hok hdis q hq
     · simp at hok
   | (some seg, loc, v) :: rest, r => by
-    intro hok q hq
+    intro hok hdis q hq
     rw [recordEntries] at hok ⊢
     simp only at hok ⊢
-    rw [positionsEntries] at hq
+    rw [positionsEntries] at hq hdis
+    rw [ignoredEntries] at hdis
     split at hok
-    · rename_i hv
-      rw [if_pos hv]
-      simp only [List.map_cons, List.map_append, List.map_map, List.mem_cons, List.mem_append, List.mem_map,
-        Function.comp] at hq
-      rcases hq with rfl | ⟨e, he, rfl⟩ | hq
-      · apply recordEntries_keys_mono
-        apply record_keys_mono
-        exact self_mem_keys_insert _ _ _
-      · apply recordEntries_keys_mono
-        have := record_complete v (r.enter (keySeg seg) loc) hv e.1 (List.mem_map.mpr ⟨e, he, rfl⟩)
-        simpa using this
-      · have := recordEntries_complete rest _ hok q (by simpa using hq)
+    · rename_i hvok
+      rw [if_pos hvok]
+      rw [List.map_append, List.mem_append] at hq
+      have hdis_rest : ∀ q ∈ (positionsEntries rest).map (·.1), q ∉ ignoredEntries rest :=
+        fun q hq hi => hdis q (by rw [List.map_append]; exact List.mem_append_right _ hq) (List.mem_append_right _ hi)
+      rcases hq with hq | hq
+      · by_cases hv : v.isIgnored = true
+        · simp [hv] at hq
+        · have hv' : v.isIgnored = false := by simpa using hv
+          simp only [hv', Bool.false_eq_true, if_false] at hq hdis
+          have hhead : ∀ q ∈ (([keySeg seg], loc) :: (positions v).map (fun e => (keySeg seg :: e.1, e.2))).map (·.1),
+              q ∉ (ignoredAt v).map (fun q => keySeg seg :: q) ∧ q ∉ ignoredEntries rest := by
+            intro q hq
+            have := hdis q (by rw [List.map_append]; exact List.mem_append_left _ hq)
+            simpa [List.mem_append, not_or] using this
+          have hdis_v : ∀ q ∈ (positions v).map (·.1), q ∉ ignoredAt v := by
+            intro q hq hi
+            obtain ⟨e, he, rfl⟩ := List.mem_map.mp hq
+            have := (hhead (keySeg seg :: e.1) (by
+              simp only [List.map_cons, List.map_map, List.mem_cons, List.mem_map, Function.comp]
+              exact Or.inr ⟨e, he, rfl⟩)).1
+            exact this (List.mem_map.mpr ⟨e.1, hi, rfl⟩)
+          have hpres := step_complete v r (keySeg seg) loc
+            (record_complete v (r.enter (keySeg seg) loc) hvok hdis_v)
+            (fun p hp hq => record_keeps v (r.enter (keySeg seg) loc) p hp hq) hv' q hq
+          apply recordEntries_keeps rest ⟨r.current, (record v (r.enter (keySeg seg) loc)).2.map⟩ _ hpres
+          intro q' hq' heq
+          have : q = q' := by simpa using heq
+          exact (hhead q hq).2 (this ▸ hq')
+      · have := recordEntries_complete rest _ hok hdis_rest q hq
         simpa using this
     · simp at hok
 end
